@@ -287,7 +287,10 @@ impl Monitor for C06 {
                             + if prog_on { group.map(|g| q_w(g.fee_state_cache.program_fee_fixed)).unwrap_or_else(Q::zero) } else { Q::zero() };
                         let b_real = (&borrow - &ff) / (qi(1) + &fi);
                         // the program evaluates the curve at a truncated utilisation
-                        let du = &u * qi(4) * (qi(1) + &util);
+                        // U^ = trunc(trunc(L) / trunc(A)): |U^ - U| <= (ulp(1 + U)) / A + ulp  (matters when
+                        // the bank only holds dust, e.g. A < 1)
+                        let a_amt = q0.assets();
+                        let du = if a_amt > qi(0) { &u * qi(2) * (qi(1) + &util) / &a_amt + &u * qi(2) } else { qi(1) };
                         let lo = curve(irc, &(&util - &du)).unwrap();
                         let hi = curve(irc, &(&util + &du)).unwrap();
                         let tol = (qi(2) + qi(2) / &q0.lsv) * &u / &tau + &u * qi(64);
@@ -297,11 +300,13 @@ impl Monitor for C06 {
                                 "realised_rate_off_curve",
                                 ix.tag,
                                 format!(
-                                    "bank {bk}: util {} base rate realised {} curve [{}, {}]",
+                                    "bank {bk}: util {} base rate realised {} curve [{}, {}] (dt {dt}, TA {} TL {} asv {} borrow {} fi {} ff {} prog_on {prog_on} lsv {} -> {} zero {} hundred {} points {:?})",
                                     q_str(&util),
                                     q_str(&b_real),
                                     q_str(&lo),
-                                    q_str(&hi)
+                                    q_str(&hi),
+                                    &q0.ta / &u, &q0.tl / &u, &q0.asv / &u,
+                                    q_str(&borrow), q_str(&fi), q_str(&ff), &q0.lsv / &u, &q1.lsv / &u, irc.zero_util_rate, irc.hundred_util_rate, irc.points.iter().map(|p| (p.util, p.rate)).collect::<Vec<_>>()
                                 ),
                                 idx,
                             ));
